@@ -345,7 +345,29 @@ def _snd(repo):
                     src = ast.unparse(v.value).replace(' ', '')
                     quoted = before.endswith('"')
                     (esc if src.startswith('escape_text(') else raw).append(('"' if quoted else '') + src)
-    return f"""/-- Sound.export: interpolations wrapped in escape_text, and the others ('"' prefix = inside quotes). -/
+    # literal text pieces written by export, in source order, and the keys parse_one looks at
+    pieces = []
+    for n in ast.walk(ex):
+        if isinstance(n, ast.Call) and isinstance(n.func, ast.Attribute) and n.func.attr == 'write' and n.args:
+            a = n.args[0]
+            if isinstance(a, ast.JoinedStr):
+                txt = ''.join(v.value if isinstance(v, ast.Constant) else '$' for v in a.values)
+            elif isinstance(a, ast.Constant) and isinstance(a.value, str):
+                txt = a.value
+            else:
+                txt = '@' + ast.unparse(a)
+            pieces.append((n.lineno, n.col_offset, txt))
+    pieces = [t for _, _, t in sorted(pieces)]
+    conds = [ast.unparse(n.test).replace(' ', '') for n in ast.walk(ex) if isinstance(n, ast.If)]
+    po = _func(tree, 'parse_one', 'Sound')
+    keys = sorted({n.value for n in ast.walk(po) if isinstance(n, ast.Constant) and isinstance(n.value, str)
+                   and n.value and n.value.replace('_', '').isalpha() and n.value.islower()})
+    return f"""/-- Sound.export: the literal text of every write ('$' = interpolation), in source order; its conditions. -/
+def sndPieces : List String := {_strs(pieces)}
+def sndConds : List String := {_strs(conds)}
+/-- lower-case word literals in Sound.parse_one (the keys it looks up). -/
+def sndParseKeys : List String := {_strs(keys)}
+/-- Sound.export: interpolations wrapped in escape_text, and the others ('"' prefix = inside quotes). -/
 def sndEscaped : List String := {_strs(sorted(esc))}
 def sndRaw : List String := {_strs(sorted(raw))}
 """
